@@ -164,6 +164,7 @@ bool session_interface::load()
 	std::string ar;
 	saved_=0;
 	on_server_=0;
+	reset_=0;
 	if(!storage_->load(*this,ar,timeout_in_)) {
 		return false;
 	}
